@@ -142,8 +142,7 @@ theorem d_gTypeReference : Der Γ Δ Z F gTypeReference (PReal Z) := by
     · shape_simp
       exact span_real (by decide) (by decide) h0.item (by pos_chain) h2.ok (by pos_chain) NodeOKL.nil
     · have f4 := h4.facts
-      simp only [f4.2.2.2.2.2]
-      shape_simp
+      shape_simp [f4.2.2.2.2.2]
       exact span_real (by decide) (by decide) h0.item (by pos_chain) h4.ok (by pos_chain) NodeOKL.nil
 
 theorem d_gTypeRange : Der Γ Δ Z F gTypeRange (PReal Z) := by
@@ -235,11 +234,10 @@ theorem d_gTypeProcedure : Der Γ Δ Z F gTypeProcedure (PReal Z) := by
     have hk := NodeOKL.optList good_real h1
     rcases h1 with ⟨rfl, e1⟩ | h1
     · shape_simp
-      exact span_real (by decide) (by decide) h0.item (by pos_chain) h0.ok (Pos.le_refl _) hk
+      exact span_real (by decide) (by decide) h0.item (by pos_chain) h0.ok (Pos.le_refl _) NodeOKL.nil
     · have f1 := h1.facts
-      simp only [f1.2.2.2.2.2]
-      shape_simp
-      exact span_real (by decide) (by decide) h0.item (by pos_chain) h1.ok (by pos_chain) hk
+      shape_simp [f1.2.2.2.2.2]
+      exact span_real (by decide) (by decide) h0.item (by pos_chain) h1.ok (by pos_chain) (NodeOKL.one h1.ok)
 
 theorem d_gTypeFunction : Der Γ Δ Z F gTypeFunction (PReal Z) := by
   unfold gTypeFunction
